@@ -743,6 +743,16 @@ func c06Gen(rng *rand.Rand) *metaCase {
 		main = append(main, "##!> include-except manydefs mdx1 mdx2 mdx3")
 		feats["many-definitions-several-exclude-files"] = true
 	}
+	// exclude files whose names contain dots and agree up to the last dot (false-pos.en, false-pos.de): each is a file of
+	// its own, with and without the .ra extension
+	if core.Chance(rng, 1, 6) {
+		p.Files.Include["dotwords"] = "alpha\nbeta\ngamma\ndelta\nepsilon\n"
+		p.Files.Exclude["false-pos.en"] = "beta\n"
+		p.Files.Exclude["false-pos.de"] = "delta\n"
+		p.Files.Exclude["false-pos"] = "epsilon\n"
+		main = append(main, core.Pick(rng, "##!> include-except dotwords false-pos.en false-pos.de", "##!> include-except dotwords false-pos.de false-pos.en.ra false-pos", "##!> include-except dotwords false-pos false-pos.de false-pos.de"))
+		feats["dotted-exclude-names"] = true
+	}
 	// an exclude file that is itself built by an include-except directive: the inner directive finishes before the
 	// outer one goes on
 	if core.Chance(rng, 1, 5) {
@@ -924,6 +934,13 @@ func c07Gen(rng *rand.Rand) *metaCase {
 			a, b = b, a
 		}
 		body = append(body, a, "##!=>", b)
+	}
+	if core.Chance(rng, 1, 5) {
+		// a definition whose value mentions a name that nothing defines: the value is substituted as typed, the unknown
+		// reference in it stays literal (also through a second definition, a prefix line and an include file)
+		feats["definition-value-with-undefined-reference"] = true
+		p.Files.Include["usesouter"] = "##!> define innerdef in{{nowhere2}}ner\nentry{{innerdef}}\n"
+		body = append(body, "##!> define withundef pre{{nowhere1}}post", "##!> define wraps <{{withundef}}>", "x{{withundef}}y", core.Pick(rng, "{{wraps}}z", "##!> include usesouter", "q{{wraps}}{{withundef}}"))
 	}
 	if nd > 0 && core.Chance(rng, 1, 4) {
 		// an include-except list that uses a name of the including file, an exclude file that spells the expanded
